@@ -1822,6 +1822,14 @@ impl<'a, E: quiver_core::effects::Effect> Compiler<'a, E> {
             return Ok(self.program.register_type(Type::nil()));
         }
 
+        // Where a failed match does not jump away, it falls through with its binders filled with
+        // nil, and only a short-circuit (the next `,`, a branch's `=>`) keeps what follows from
+        // seeing them. So a binder of a match that can fail is nil too, until such a point narrows
+        // the nil away again (`narrow_nil_from_new_bindings`); in a tuple field or further down
+        // the same chain it stays.
+        let nil_fills = can_fail && on_no_match.is_none();
+        let nil_type_id = self.program.register_type(Type::nil());
+
         // Register locals for all bindings (indices needed for Load)
         let binds_whole_value = matches!(
             pattern,
@@ -1850,7 +1858,11 @@ impl<'a, E: quiver_core::effects::Effect> Compiler<'a, E> {
                 scope.bindings.insert(
                     variable_name.clone(),
                     Binding::Variable {
-                        ty: *variable_type,
+                        ty: if nil_fills {
+                            typing::union_type_ids(self.program, vec![*variable_type, nil_type_id])
+                        } else {
+                            *variable_type
+                        },
                         index: local_index,
                         provenance: var_provenance,
                     },
@@ -2104,11 +2116,7 @@ impl<'a, E: quiver_core::effects::Effect> Compiler<'a, E> {
             let mut narrowing = Narrowing::new();
 
             // Record existing bindings before compiling condition - we'll narrow new ones later
-            let bindings_before_condition: std::collections::HashSet<String> = self
-                .scopes
-                .last()
-                .map(|s| s.bindings.keys().cloned().collect())
-                .unwrap_or_default();
+            let bindings_before_condition = scopes::variable_slots(&self.scopes);
 
             // Compile the condition expression - it can use ~> to access the parameter
             // We need both the type and provenance for forward narrowing
@@ -2458,11 +2466,7 @@ impl<'a, E: quiver_core::effects::Effect> Compiler<'a, E> {
 
         for (i, chain) in sequence.chains.iter().enumerate() {
             // Track bindings before this chain for inter-chain narrowing
-            let bindings_before_chain: std::collections::HashSet<String> = self
-                .scopes
-                .last()
-                .map(|s| s.bindings.keys().cloned().collect())
-                .unwrap_or_default();
+            let bindings_before_chain = scopes::variable_slots(&self.scopes);
 
             // A chain after the first threads from the previous chain's result (on the stack). That
             // value is non-nil — a nil result short-circuits to the end — so strip nil from its
